@@ -1110,6 +1110,11 @@ class App(falcon.app.App):
         self, ver: str, scope: Dict[str, Any], receive: AsgiReceive, send: AsgiSend
     ) -> None:
         first_event = await receive()
+        if first_event['type'] == EventType.WS_DISCONNECT:
+            # NOTE: The client abandoned the handshake; the connection is
+            #   already gone, so there is nothing left to close.
+            return
+
         if first_event['type'] != EventType.WS_CONNECT:
             # NOTE(kgriffs): The handshake was abandoned or this is a message
             #   we don't support, so bail out. This also fulfills the ASGI
